@@ -393,6 +393,79 @@ def alive_elsewhere(obj, w):
     return False
 
 
+def used_then_dropped(r):
+    import funsor.interpretations as I
+    from funsor import Reals, Variable, ops
+    from funsor.domains import find_domain
+    from funsor.terms import Unary
+
+    kind = r.choice(["SumOp", "ProdOp", "LogsumexpOp", "AmaxOp", "AminOp", "MeanOp", "StdOp", "VarOp", "AllOp", "AnyOp", "GetsliceOp", "ReshapeOp", "UnsqueezeOp"])
+    shape = (7 + r.randint(0, 3), 11, 13)
+    interp = r.choice(["reflect", "lazy", "eager", "direct"])
+    cls = getattr(ops, kind)
+    if kind == "GetsliceOp":
+        op = cls(r.choice([slice(1, 5, 2), 3, (slice(None), 2), (Ellipsis, slice(0, 3))]))
+    elif kind == "ReshapeOp":
+        op = cls((shape[0] * 11, 13))
+    elif kind == "UnsqueezeOp":
+        op = cls(r.choice([1, 2, -2]))
+    else:
+        op = cls(r.choice([1, 2, (0, 2), -2, (1,)]), r.choice([True, False]))
+    dom = Reals[shape]
+    term = None
+    if interp == "direct":
+        out = find_domain(op, dom)
+    else:
+        with getattr(I, interp):
+            term = Unary(op, Variable("hv", dom))
+        out = term.output
+    refs = dict(op=weakref.ref(op), dom=weakref.ref(dom), out=weakref.ref(out))
+    if term is not None:
+        refs["term"] = weakref.ref(term)
+    desc = (kind, repr(dict(op.defaults)), shape, interp)
+    del op, dom, out, term
+    gc.collect()
+    return desc, [k for k, ref in refs.items() if ref() is not None]
+
+
+def domain_round_trip(r):
+    import copy
+    import pickle
+
+    from funsor import Bint, Reals, Variable
+    from funsor.domains import Array, Product
+
+    def one():
+        k = r.choice(["bint", "bint_shaped", "bint_shaped", "reals", "array_real", "array_int", "array_int"])
+        shape = tuple(r.randint(1, 4) for _ in range(r.randint(1, 3)))
+        size = r.randint(2, 19)
+        if k == "bint":
+            return Bint[size], (size, ())
+        if k == "bint_shaped":
+            return Bint[(size,) + shape], (size, shape)
+        if k == "reals":
+            return Reals[shape], ("real", shape)
+        if k == "array_real":
+            return Array["real", shape], ("real", shape)
+        return Array[size, shape], (size, shape)
+
+    d, want = one()
+    if r.random() < 0.2:
+        d2, want2 = one()
+        d = Product[d, d2]
+        want = None
+    desc = repr(d)
+    obj = Variable("hv", d) if r.random() < 0.4 and want is not None else d
+    for how, f in (("pickle", lambda x: pickle.loads(pickle.dumps(x))), ("pickle-protocol-2", lambda x: pickle.loads(pickle.dumps(x, 2))), ("deepcopy", copy.deepcopy)):
+        back = f(obj)
+        if back is not obj:
+            return desc, f"{how}: returned a different object {back!r}"
+        dd = back.output if obj is not d else back
+        if want is not None and (dd.dtype != want[0] or tuple(dd.shape) != tuple(want[1])):
+            return desc, f"{how}: came back with dtype {dd.dtype} shape {dd.shape}"
+    return desc, None
+
+
 class C07(Prop):
     id = "C07"
     rule = (
@@ -414,13 +487,56 @@ class C07(Prop):
     def strategy(self, tier):
         return st.integers(0, 2**40).map(robust_gen(gen_case))
 
+    def extra(self, tier, shard, nshards, stt, seed):
+        """Two generated scenarios outside the recipe histories: (a) a parametrised op and freshly sized domains are *used*
+        (in a term under reflect / lazy / eager, or by find_domain) and then dropped - op, argument domain, result domain and
+        term must all be dead after gc.collect(); (b) domains of every documented form (Bint[n], Bint[n, *shape], Reals[shape],
+        Array[dtype, shape], Product) and variables over them survive pickle / deepcopy as the identical object."""
+        n = 40 if tier == "quick" else 600
+        for scenario in ("used_then_dropped", "domain_round_trip"):
+            for it in range(n):
+                case = {"scenario": scenario, "rseed": (seed * 1000 + shard) * 10000 + it}
+                stt.evaluations += 1
+                try:
+                    self.check(case, stt)
+                except Decline as d:
+                    stt.decline(d.bucket)
+                except Violation as v:
+                    if not any(x["bucket"] == v.bucket for x in stt.violations) and len(stt.violations) < 6:
+                        stt.violations.append(dict(bucket=v.bucket, message=v.message, case=case))
+
+    def check_scenario(self, case, stt):
+        r = random.Random(case["rseed"])
+        if case["scenario"] == "used_then_dropped":
+            try:
+                desc, alive = used_then_dropped(r)
+            except Exception as e:  # noqa: BLE001
+                raise Decline("used-then-dropped-raised:" + type(e).__name__)
+            stt.count("used-then-dropped:" + desc[0] + ":" + desc[3])
+            if alive:
+                raise Violation("used-object-not-reclaimed|" + desc[0] + "|" + ",".join(alive), f"{desc}: still alive after every handle was dropped and gc.collect(): {alive}")
+            stt.mark_nontrivial(case_hash({"utd": repr(desc)}))
+        else:
+            try:
+                desc, problem = domain_round_trip(r)
+            except Exception as e:  # noqa: BLE001
+                raise Decline("domain-round-trip-raised:" + type(e).__name__)
+            stt.count("domain-round-trip:" + desc.split("[")[0])
+            if problem:
+                raise Violation("domain-round-trip|" + desc.split("[")[0] + "|" + problem.split(":")[0], f"{desc}: {problem}")
+            stt.mark_nontrivial(case_hash({"drt": desc}))
+
     def describe(self, case):
         return str(case)[:700]
 
     def signature(self, case):
+        if "scenario" in case:
+            return case["scenario"]
         return ",".join(sorted({s[0] for s in case["steps"]}))
 
     def shrink_candidates(self, case):
+        if "scenario" in case:
+            return
         steps = list(case["steps"])
         for i in range(len(steps)):
             yield dict(case, steps=steps[:i] + steps[i + 1:])
@@ -430,6 +546,8 @@ class C07(Prop):
         from funsor.interpreter import reinterpret
         from funsor.terms import Funsor
 
+        if "scenario" in case:
+            return self.check_scenario(case, stt)
         recipes, steps = case["recipes"], case["steps"]
         w = World()
         gc.collect()
